@@ -294,6 +294,7 @@ class StateMatrix:
         # the copy owns its system arrays too (they were shared with the original)
         sm.system = self.system.copy()
         coll._linked = {sm.system}
+        coll._update_shape()  # the updates above may have changed the shape
         return sm
 
     def resize(self, nstate):
